@@ -99,12 +99,7 @@ def _run(chk):
         if os.environ.get('VERIF_TIMING'):
             print(f'[timing] {what}: {time.time() - _t[0]:.1f}s', file=sys.stderr)
         _t[0] = time.time()
-    try:
-        chk.generated_changed += TV.translate()
-    except TV.TranslateError as e:
-        # the loaded vocabularies are inconsistent (index not 'last entry wins', non-finite mass, ...): reported, the tables
-        # generated last time stay in place
-        chk.disagreements.append({'op': 'translate_vocab', 'line': 'loaded tables -> Lean', 'impl': str(e)[:500], 'model': 'n/a'})
+    TV.translate_into(chk)  # never raises: a failed dump is a reported item, the previous tables stay
     chk.lean_build(['PeptVerif.Props.C15', 'PeptVerif.Props.C15Glycan'], DRV)
     lap('build')
     chk.trusted += [
